@@ -91,8 +91,15 @@ def gen_aim_case(rnd):
     pairs = [list(c) for c in itertools.combinations(attrs, 2)] or [[attrs[0]]]
     wl = rnd.sample(pairs, rnd.randint(1, len(pairs)))
     pol = rnd.choice([{}, {'repeat': 0.8}, {'zero': 0.5, 'repeat': 0.5}, {'outlier': 0.3, 'argmin': 0.3}])
+    # history on the mechanism object: an earlier run of the same AIM object - on the same table, or on a narrower table that lacks an
+    # attribute of the zero set (a preview; the library may refuse it) - before the run whose output is checked
+    earlier = rnd.choice([None, None, 'same', 'narrow'])
+    drop = rnd.choice(zc) if len(attrs) >= 2 else None
+    if earlier == 'narrow' and drop is None:
+        earlier = 'same'
     return dict(engine='C', kind='aim', attrs=attrs, sizes=sizes, zeros=[[zc, zero_cells]], records=recs, workload=wl, eps=rnd.choice([0.3, 1.0, 3.0, 10.0]),
-                delta=1e-6, rounds=rnd.choice([d, d + 1, 2 * d, 6]), rates=pol, rng_seed=rnd.getrandbits(32), iters_cap=rnd.choice([5, 20, 50]))
+                delta=1e-6, rounds=rnd.choice([d, d + 1, 2 * d, 6]), rates=pol, rng_seed=rnd.getrandbits(32), iters_cap=rnd.choice([5, 20, 50]),
+                earlier=earlier, drop=drop)
 
 
 def run_aim_case(case):
@@ -111,6 +118,19 @@ def run_aim_case(case):
         with rng.installed():
             m = mod.AIM(case['eps'], case['delta'], rounds=case['rounds'], structural_zeros=zs)
             m.prng = rng
+            if case.get('earlier') == 'same':
+                m.run(data, [(tuple(w), 1.0) for w in case['workload']])
+                faults['aim-object-reused'] = 1
+            elif case.get('earlier') == 'narrow':
+                keep = [a for a in case['attrs'] if a != case['drop']]
+                wl0 = [tuple(a for a in w if a != case['drop']) for w in case['workload']]
+                wl0 = [w for w in wl0 if w] or [(keep[0],)]
+                try:
+                    m.run(data.project(keep), [(w, 1.0) for w in wl0])
+                    probes['aim-narrow-preview-accepted'] = 1
+                except Exception as e:              # a table that lacks an attribute of the zero set may be refused
+                    probes['aim-narrow-preview-refused:' + type(e).__name__] = 1
+                faults['aim-object-reused-after-narrower-table'] = 1
             return m.run(data, [(tuple(w), 1.0) for w in case['workload']])
     out, v = guard_repo(go, 'AIM.run')
     for k, n_ in rng.fired.items():
@@ -860,6 +880,10 @@ def shrink(case, prop):
         if case['rates']:
             c = copy.deepcopy(case)
             c['rates'] = {}
+            yield c
+        if case.get('earlier'):
+            c = copy.deepcopy(case)
+            c['earlier'] = None
             yield c
         if len(case['workload']) > 1:
             for k in range(len(case['workload'])):
